@@ -20,7 +20,12 @@ LEVEL = "exploration"
 RULE = ("Hypothesis-generated initial solutions on a shipped ion-association database (1-8 elements of that database, "
         "log-uniform 1e-9..3 molal, pH 2-12 or charge, pe inside the water stability field, 0-100 C (LLNL grid respected), -water, "
         "18 unit spellings, as/gfw, charge- and phase-adjusted elements, valence-specific totals, -redox couples), in half of the "
-        "cases a second simulation (REACTION, EQUILIBRIUM_PHASES, MIX with a second solution, REACTION_TEMPERATURE), 1 atm; a "
+        "cases a second simulation (REACTION, EQUILIBRIUM_PHASES, MIX with a second solution, REACTION_TEMPERATURE), in a quarter "
+        "of the cases database additions (SOLUTION_SPECIES / PHASES blocks in the run input after LoadDatabase, or as a correction "
+        "block at the end of the database text via LoadDatabaseString) that re-define 1-3 existing species and 0-2 phases with the "
+        "same reaction and a new constant (log_k alone, log_k + delta_h with unit, a new analytical expression; i.e. also dropping "
+        "an analytical expression / delta_h the database had) and add a brand-new ion pair / salt phase; the oracle reads database "
+        "text + additions in order with the same independent parser; 1 atm; a "
         "generated USER_PUNCH reads LA/LM/LG/MOL/LK_SPECIES of every species of the database whose elements are present and "
         "SI/SR/LK_PHASE of <= 40 phases; every selected-output row (= one solution calculation) is checked. Thorough adds four "
         "more databases (Thermoddem, Kinec_v3, sit, pitzer) and a deterministic sweep that puts every species of 17 databases "
@@ -40,6 +45,9 @@ ASSUMPTIONS = ["vp/dbparse.py + vp/formula.py read the database text as the PHRE
                "excluded and counted: H/O totals of an initial solution that enters a minor isotope of H/O (iso.dat ISOTOPES layer "
                "re-labels them after the speciation); total of an element that is foreign to a master species (Thermoddem CN- as N(-5)); "
                "states with a species above 1000 mol/kgw (discarded)",
+               "a later definition of a species / phase replaces the earlier one completely (structures.cpp s_store/phase_store "
+               "re-initialise; manual: input definitions supersede the database); re-definitions only change constants, and no "
+               "C01 clause depends on -gamma/-Vm/-dw, so the reset-to-default of those options is not asserted either way",
                "only 1 atm (molar-volume terms vanish)"]
 TECHNIQUE = "property-based testing (Hypothesis) against an independent reference evaluation of the database text"
 LEVEL_TEXT = ("Exploration: thousands of generated solutions per run on 10 (thorough: 14) databases; every mass-action equation, "
@@ -83,8 +91,12 @@ _INFO = {}
 class DbInfo(object):
     """what generator and oracle need to know about a database (all from the independent parser)"""
 
-    def __init__(self, name):
+    def __init__(self, name, additions=None):
         db = dbparse.load(name)
+        if additions:
+            # definitions that reach the engine after the database text (run input or correction block): read by the same
+            # independent parser as a continuation of the database text; a later definition replaces the earlier one completely
+            db = dbparse.parse_text(additions, name + "+additions", base=db)
         if db.problems:
             raise RuntimeError("database %s not read completely: %r" % (name, db.problems[:3]))
         self.db = db
@@ -266,6 +278,22 @@ def info(name):
     return _INFO[name]
 
 
+_INFO_ADD = {}
+
+
+def info_for(case):
+    """database view the oracle uses for a case: database text + the case's additions / re-definitions, in order"""
+    d = case.get("defs")
+    if not d:
+        return info(case["db"])
+    key = (case["db"], d["text"])
+    if key not in _INFO_ADD:
+        if len(_INFO_ADD) > 32:
+            _INFO_ADD.clear()
+        _INFO_ADD[key] = DbInfo(case["db"], d["text"])
+    return _INFO_ADD[key]
+
+
 # ----------------------------------------------------------------------------------------------- units
 def unit_parts(u):
     """'mg/L' -> (scale to mol or g, is_mass, denominator)"""
@@ -443,6 +471,147 @@ def _weighable(inf, formula, base):
         return False
 
 
+# ---- database additions / re-definitions (SOLUTION_SPECIES and PHASES given after the database text)
+DH_UNITS = [None, "kJ", "kcal", "kJ/mol", "kcal/mol", "joules", "cal"]
+
+
+def _side(terms):
+    out = []
+    for k, (c, n) in enumerate(terms):
+        coef = "" if abs(c) == 1 else "%s " % cg.fmt(abs(c)) if abs(c) != int(abs(c)) else "%d " % abs(c)
+        op = ("- " if c < 0 else "") if k == 0 else ("- " if c < 0 else "+ ")
+        out.append(op + coef + n)
+    return " ".join(out)
+
+
+def equation_text(lhs, rhs):
+    return _side(lhs) + " = " + _side(rhs)
+
+
+@st.composite
+def logk_lines_st(draw, logk25):
+    """option lines that give a definition its constant: log_k [+ delta_h with unit] | new analytical expression [+ log_k]"""
+    L = []
+    kind = draw(st.sampled_from(["logk", "logk+dh", "logk+dh", "analytic", "analytic+logk"]))
+    lk = _r(logk25, 6)
+    if kind in ("logk", "logk+dh", "analytic+logk"):
+        L.append(" log_k %s" % cg.fmt(lk if kind != "analytic+logk" else _r(lk + 1.5, 6)))
+    if kind == "logk+dh":
+        unit = draw(st.sampled_from(DH_UNITS))
+        kj = draw(cg.uni(-80.0, 80.0, 4))
+        v = kj
+        if unit and not unit.lower().startswith("k"):
+            v = v * 1000.0
+        if unit and "c" in unit.lower():
+            v = v / 4.184
+        L.append(" delta_h %s%s" % (cg.fmt(_r(v, 6)), " " + unit if unit else ""))
+    if kind.startswith("analytic"):
+        T = 298.15
+        a2 = draw(st.sampled_from([0.0, 0.0, 1.0])) * draw(cg.uni(-0.02, 0.02, 3))
+        a3 = draw(cg.uni(-3000.0, 3000.0, 4))
+        a4 = draw(st.sampled_from([0.0, 1.0])) * draw(cg.uni(-10.0, 10.0, 3))
+        a5 = draw(st.sampled_from([0.0, 0.0, 1.0])) * draw(cg.uni(-2e5, 2e5, 3))
+        a6 = draw(st.sampled_from([0.0, 0.0, 0.0, 1.0])) * draw(cg.uni(-1e-5, 1e-5, 3))
+        a1 = _r(lk - (a2 * T + a3 / T + a4 * math.log10(T) + a5 / (T * T) + a6 * T * T), 8)
+        A = [a1, a2, a3, a4, a5, a6]
+        while len(A) > 1 and A[-1] == 0.0:
+            A.pop()
+        L.append(" -analytical_expression " + " ".join(cg.fmt(x) for x in A))
+    return L
+
+
+def _plain(sp):
+    return (not sp.is_identity and sp.mole_balance is None and not sp.no_check and not getattr(sp, "activity_water", False)
+            and not getattr(sp, "co2_llnl_gamma", False) and "add_constant" not in sp.options
+            and all(c > 0 for c, _ in sp.lhs + sp.rhs))
+
+
+@st.composite
+def defs_st(draw, inf, base_els):
+    """-> dict(mode, text, phases, redefined, new) or None.  Re-definitions keep the reaction of the database and give a new
+    constant; what a re-definition does not restate falls back to the defaults (the later definition replaces the earlier one
+    completely).  Only constants are re-defined: nothing the C01 clauses read depends on -gamma/-Vm/-dw of the old definition."""
+    db = inf.db
+    sp_lines, ph_lines, phases, redefined, new = [], [], [], [], []
+    masters = set(db.master_of_species)
+    cand = [n for n in inf.species_for(base_els) if n in inf.usable and n not in masters and _plain(db.species[n])
+            and n not in (inf.water, inf.eminus)]
+    if cand:
+        weighted = sorted(cand) + [n for n in sorted(cand) if db.species[n].uses_analytic() or db.species[n].add_logk] * 3
+        for n in draw(st.lists(st.sampled_from(weighted), min_size=1, max_size=3, unique=True)):
+            sp = db.species[n]
+            sp_lines.append(equation_text(sp.lhs, sp.rhs))
+            sp_lines += draw(logk_lines_st(sp.logk(298.15, db) + draw(cg.uni(-2.0, 2.0, 3))))
+            if sp.gamma is not None and draw(st.booleans()):
+                sp_lines.append(" -gamma %s %s" % (cg.fmt(sp.gamma[0]), cg.fmt(sp.gamma[1])))
+            elif sp.llnl_gamma is not None and draw(st.booleans()):
+                sp_lines.append(" -llnl_gamma %s" % cg.fmt(sp.llnl_gamma))
+            redefined.append(n)
+    # a brand-new ion pair of two master species of the chosen elements, and a brand-new salt phase
+    cats, ans = [], []
+    for e in base_els:
+        m = db.master.get(e)
+        if m is None or m.species not in db.species:
+            continue
+        body, z = F.split_charge(m.species)
+        if z != int(z):
+            continue
+        if z > 0 and body == e:
+            cats.append((m.species, body, z))
+        elif z < 0 and "(" not in body and "[" not in body:
+            ans.append((m.species, body, z))
+    pairs = []
+    for c in cats:
+        for a in ans:
+            name = F.canonical(c[1] + a[1] + ("%+g" % (c[2] + a[2]) if c[2] + a[2] else ""))
+            try:
+                ok = F.elements(name) == F.add(dict(F.elements(c[0])), F.elements(a[0]))
+            except F.FormulaError:
+                ok = False
+            if ok and name not in db.species and c[1] + a[1] not in db.species:
+                pairs.append((c[0], a[0], name, c[1] + a[1], c[2], a[2]))
+    if pairs and draw(st.integers(0, 3)) > 0:
+        c, a, name, salt, zc, za = draw(st.sampled_from(sorted(pairs)))
+        if draw(st.booleans()):
+            sp_lines.append("%s + %s = %s" % (c, a, name))
+            sp_lines += draw(logk_lines_st(draw(cg.uni(-1.0, 2.5, 3))))
+            new.append(name)
+        if draw(st.booleans()):
+            # neutral salt: |za| cations + zc anions
+            nc, na = int(abs(za)), int(zc)
+            g = math.gcd(nc, na)
+            nc, na = nc // g, na // g
+            cb, ab = F.split_charge(c)[0], F.split_charge(a)[0]
+            formula = cb + (str(nc) if nc > 1 else "") + (("(%s)%d" % (ab, na)) if na > 1 else ab)
+            pname = "C01new_" + re.sub(r"[^A-Za-z0-9]", "_", formula)
+            if pname.lower() not in db.phase_ci:
+                ph_lines.append(pname)
+                ph_lines.append(" %s = %s%s + %s%s" % (formula, "%d " % nc if nc > 1 else "", c, "%d " % na if na > 1 else "", a))
+                ph_lines += ["  " + x.strip() for x in draw(logk_lines_st(draw(cg.uni(-6.0, 2.0, 3))))]
+                phases.append(pname)
+                new.append(pname)
+    pc = [p for p in sorted(inf.phases_for(base_els)) if inf.usable_phases[p].t_c is None and "add_constant" not in inf.usable_phases[p].options
+          and all(c > 0 for c, _ in inf.usable_phases[p].lhs + inf.usable_phases[p].rhs) and len(inf.usable_phases[p].lhs) >= 1]
+    if pc and draw(st.booleans()):
+        wp = pc + [p for p in pc if inf.usable_phases[p].uses_analytic() or inf.usable_phases[p].add_logk] * 3
+        for p in draw(st.lists(st.sampled_from(wp), min_size=1, max_size=2, unique=True)):
+            ph = inf.usable_phases[p]
+            ph_lines.append(p)
+            ph_lines.append(" " + equation_text(ph.lhs, ph.rhs))
+            ph_lines += ["  " + x.strip() for x in draw(logk_lines_st(ph.logk(298.15, db) + draw(cg.uni(-2.0, 2.0, 3))))]
+            phases.append(p)
+            redefined.append(p)
+    if not sp_lines and not ph_lines:
+        return None
+    text = ""
+    if sp_lines:
+        text += "SOLUTION_SPECIES\n" + "\n".join(sp_lines) + "\n"
+    if ph_lines:
+        text += "PHASES\n" + "\n".join(ph_lines) + "\n"
+    return {"mode": draw(st.sampled_from(["input", "input", "dbstring"])), "text": text, "phases": phases,
+            "redefined": redefined, "new": new}
+
+
 @st.composite
 def case_st(draw, databases=None):
     names = [d for d, w in (databases or DATABASES) for _ in range(w)]
@@ -451,6 +620,10 @@ def case_st(draw, databases=None):
     sol1 = draw(solution_st(inf, 1))
     case = {"db": dbn, "sols": [sol1], "react": [], "pseed": draw(st.integers(0, 10 ** 6))}
     base_els = sorted({inf.db.master[c["el"]].base for c in sol1["comps"]} - {"H", "O"})
+    if draw(st.integers(0, 3)) == 0:
+        d = draw(defs_st(inf, base_els))
+        if d:
+            case["defs"] = d
     k = draw(st.integers(0, 9))
     if k >= 5:
         return case
@@ -545,6 +718,9 @@ def build_input(inf, case):
         phases = sorted(phases, key=lambda p: hashlib.sha256(("%d:%s" % (h, p)).encode()).hexdigest())[:MAX_PHASES]
         phases.sort()
     # phases named in the case are always observed
+    for p in (case.get("defs") or {}).get("phases", []):
+        if p not in phases and p in inf.usable_phases:
+            phases.append(p)
     for sol in case["sols"]:
         for c in sol["comps"]:
             if c.get("adj") and c["adj"] != "charge" and c["adj"].split()[0] not in phases:
@@ -565,6 +741,8 @@ def build_input(inf, case):
         for f in ("SI", "SR", "LK_PHASE"):
             items.append(("%s:%s" % (f, p), '%s("%s")' % (f, p)))
     P = [("KNOBS" if case.get("default_knobs") else cg.KNOBS_TIGHT) + "\n -logfile true"]       # the log names basis switches and iteration counts (see stale_rows)
+    if additions_in_input(case):
+        P.append(case["defs"]["text"])           # delivery in the run input, after LoadDatabase and before the solutions
     for sol in case["sols"]:
         P.append(render_solution(sol))
     # built-in columns: the print.cpp read-out path
@@ -654,6 +832,43 @@ def redox_skip(inf, terms, glob, D, defined=None):
     return False
 
 
+_DBTEXT = {}
+
+
+def database_text(name):
+    """database file text up to (not including) its first END line: the engine stops reading a database there"""
+    if name not in _DBTEXT:
+        import os as _os
+        with open(_os.path.join(lib.DBDIR, name), "rb") as f:
+            t = f.read().decode("latin-1")
+        m = re.search(r"^[ \t]*END[ \t]*\r?$", t, re.M | re.I)
+        _DBTEXT[name] = (t[:m.start()] if m else t, "INCLUDE$" in t.upper())
+    return _DBTEXT[name]
+
+
+def load_instance(case):
+    d = case.get("defs")
+    if d and d.get("mode") == "dbstring":
+        text, has_include = database_text(case["db"])
+        if not has_include:
+            # delivery as a correction block at the end of the database text (LoadDatabaseString)
+            I = lib.Inst("rel")
+            rc = I.load_db_string(text + "\n" + d["text"] + "\nEND\n")
+            if rc != 0:
+                err = I.errors()
+                I.close()
+                raise RuntimeError("LoadDatabaseString(%s + additions) failed: %s" % (case["db"], err[:300]))
+            return I
+    return lib.fresh(case["db"])
+
+
+def additions_in_input(case):
+    d = case.get("defs")
+    if not d:
+        return False
+    return not (d.get("mode") == "dbstring" and not database_text(case["db"])[1])
+
+
 _BLOCK = re.compile(r"^(Initial solution \d+\.|Reaction step \d+\.)", re.M)
 _EVENT = re.compile(r"Switching bases to .*?Iteration (\d+)|Number of iterations: (\d+)")
 
@@ -687,11 +902,11 @@ def stale_rows(log):
 
 
 def check_case(case, ctx):
-    inf = info(case["db"])
+    inf = info_for(case)
     db = inf.db
     text, items, meta = build_input(inf, case)
     try:
-        I = lib.fresh(case["db"])
+        I = load_instance(case)
     except RuntimeError as e:
         # a database the tree cannot load: no calculation completes -> outside the property's domain (never on the unchanged tree)
         if "LoadDatabase" not in str(e):
@@ -754,6 +969,17 @@ def check_case(case, ctx):
         opts.append("redox_couple")
     for rr in case["react"]:
         opts.append("react:" + rr["kind"])
+    if case.get("defs"):
+        dd = case["defs"]
+        opts.append("defs:" + ("correction_block_in_database_text" if not additions_in_input(case) else "blocks_in_run_input"))
+        if dd.get("redefined"):
+            opts.append("defs:redefinition")
+            base = info(case["db"])
+            if any((base.db.species.get(n) or base.db.phase(n)).uses_analytic() and not (db.species.get(n) or db.phase(n)).uses_analytic()
+                   for n in dd["redefined"]):
+                opts.append("defs:redefinition_drops_analytic_expression")
+        if dd.get("new"):
+            opts.append("defs:new_species_or_phase")
     nt = nel >= 3 and stats["eq"] >= 10 and bool(opts)
     classes = ["db=" + case["db"], "elements=%d" % min(nel, 9)] + ["opt=" + o for o in opts]
     if stats["redox_skipped"]:
